@@ -36,6 +36,8 @@ type State struct {
 	TrailL []Lit
 	// Log: ordered events (bounded)
 	Log []string
+	// FieldVal: symbolic values of scalar fields written on this path (only with Walker.trackFields)
+	FieldVal map[string]*Term
 	// Sticky: literals that were facts on this path before a write invalidated them (admission facts)
 	Sticky map[string]Lit
 	// RetConst: "true","false","nil","" classification of first result
@@ -59,6 +61,12 @@ func (s *State) clone() *State {
 	n.Trail = append([]string{}, s.Trail...)
 	n.TrailL = append([]Lit{}, s.TrailL...)
 	n.Log = append([]string{}, s.Log...)
+	if s.FieldVal != nil {
+		n.FieldVal = make(map[string]*Term, len(s.FieldVal))
+		for k, v := range s.FieldVal {
+			n.FieldVal[k] = v
+		}
+	}
 	if s.Sticky != nil {
 		n.Sticky = make(map[string]Lit, len(s.Sticky))
 		for k, v := range s.Sticky {
@@ -154,6 +162,9 @@ type Walker struct {
 	budget int
 	swBreaks []*State
 	cnt      []*cntCtx
+	// trackFields: substitute reads of scalar state fields by the value last written on this path
+	trackFields bool
+	lvalue      bool
 }
 
 type inlineCtx struct {
@@ -182,7 +193,11 @@ func (w *Walker) undecided(n ast.Node, msg string) {
 
 // walkFunc walks fn from the initial state; returns exit states.
 func (a *Analysis) walkFunc(fn *FuncInfo, init *State, record bool) []*State {
-	w := &Walker{A: a, Fn: fn, info: fn.Pkg.TypesInfo, record: record, budget: 200000}
+	return a.walkFuncOpt(fn, init, record, false)
+}
+
+func (a *Analysis) walkFuncOpt(fn *FuncInfo, init *State, record, trackFields bool) []*State {
+	w := &Walker{A: a, Fn: fn, info: fn.Pkg.TypesInfo, record: record, budget: 200000, trackFields: trackFields}
 	st := init
 	// bind receiver / params
 	a.bindParams(fn, st)
@@ -718,7 +733,9 @@ func (w *Walker) store(lh ast.Expr, val *Term, st *State, at ast.Node) {
 	case *ast.Ident:
 		w.storeOrBind(lh, val, st, at, false)
 	case *ast.SelectorExpr:
+		w.lvalue = true
 		rs := w.eval(x, st) // no calls expected in lvalues; take first
+		w.lvalue = false
 		if len(rs) == 0 {
 			return
 		}
@@ -738,7 +755,9 @@ func (w *Walker) store(lh ast.Expr, val *Term, st *State, at ast.Node) {
 			w.write(l, KillAny, nil, val, st, at)
 		}
 	case *ast.IndexExpr:
+		w.lvalue = true
 		bs := w.eval(x.X, st)
+		w.lvalue = false
 		if len(bs) == 0 {
 			return
 		}
@@ -854,6 +873,12 @@ func (w *Walker) write(loc string, kind int, idx, val *Term, st *State, at ast.N
 		w.A.snap(site, st, nil, nil, val, idx)
 	}
 	applyKill(st, loc, kind, idx)
+	if w.trackFields && idx == nil && val != nil && !val.readsLoc(loc) {
+		if st.FieldVal == nil {
+			st.FieldVal = map[string]*Term{}
+		}
+		st.FieldVal[loc] = val
+	}
 	if idx != nil && kind&(KillNNOwn|KillNNSender|KillNNOther|KillNNPrimary) != 0 && kind&KillAny == 0 {
 		st.F.add(Lit{mkAtom("nn", mkTerm(KIndex, "", mkTerm(KField, loc), idx), nil), true})
 	}
@@ -873,6 +898,14 @@ func applyKill(st *State, loc string, kind int, idx *Term) {
 	st.Killed[loc] |= kind
 	if loc == "ctx.ViewNumber" {
 		st.logEv("ev:epoch-write")
+	}
+	if st.FieldVal != nil {
+		delete(st.FieldVal, loc)
+		for k, v := range st.FieldVal {
+			if v.readsLoc(loc) {
+				delete(st.FieldVal, k)
+			}
+		}
 	}
 	if idx == nil && kind == KillNNOwn {
 		idx = mkTerm(KField, "ctx.MyIndex")
@@ -1335,6 +1368,7 @@ func (w *Walker) eval(e ast.Expr, st *State) []evalRes {
 			var bounds []*Term
 			for _, be := range []ast.Expr{x.Low, x.High, x.Max} {
 				if be == nil {
+					bounds = append(bounds, constTerm("_"))
 					continue
 				}
 				var next []*State
@@ -1568,7 +1602,13 @@ func (w *Walker) selector(x *ast.SelectorExpr, st *State) []evalRes {
 			continue
 		}
 		fv := sel.Obj().(*types.Var).Origin()
-		out = append(out, evalRes{b.st, w.fieldTerm(b.t, fv, x.Sel.Name)})
+		ft := w.fieldTerm(b.t, fv, x.Sel.Name)
+		if w.trackFields && ft.K == KField && b.st.FieldVal != nil && !w.lvalue {
+			if v, ok := b.st.FieldVal[ft.Name]; ok {
+				ft = v
+			}
+		}
+		out = append(out, evalRes{b.st, ft})
 	}
 	return out
 }
